@@ -411,7 +411,12 @@ func runC14(c *Ctx) {
 				s.maxD = 0
 				data := strings.Join(s.eval(m.arg(1)), "|")
 				buf := strings.Join(s.eval(cs.arg(0)), "|")
-				c.check(strings.HasPrefix(data, "(*bytes.Buffer).Bytes(") && strings.Contains(buf, "bytes.Buffer"), "C14.2", fnName(fn)+":written-bytes", L.pos(m.instr.Pos()), "the bytes written are the buffer that format.Node filled", "data="+data+" ; format target="+buf)
+				okBuf := strings.HasPrefix(data, "(*bytes.Buffer).Bytes(") && strings.Contains(buf, "bytes.Buffer")
+				if bc, isCall := resolve(m.arg(1)).(*ssa.Call); isCall && calleeOf(bc.Common()) == "(*bytes.Buffer).Bytes" && len(bc.Common().Args) == 1 {
+					// the very buffer: the receiver of Bytes() and the writer handed to format.Node are one value
+					okBuf = resolve(bc.Common().Args[0]) == resolve(cs.arg(0))
+				}
+				c.check(okBuf, "C14.2", fnName(fn)+":written-bytes", L.pos(m.instr.Pos()), "the bytes written are the buffer that format.Node filled", "data="+data+" ; format target="+buf)
 			}
 		}
 		c.check(okFmt, "C14.1", fnName(fn)+":format-before-write", L.pos(m.instr.Pos()), "the file is written only after formatting succeeded", why)
